@@ -17,3 +17,5 @@ def build(eng, tier):
     usedef_targets.build(eng, "C01")
     C06.add_rename_target(eng)
     C06.add_value_name_target(eng)
+    from . import init_targets
+    init_targets.build(eng, "C01")
